@@ -406,6 +406,46 @@ def run_s4(case):
     return r
 
 
+def gen_s6(tier):
+    def g():
+        shapes = ((40, 37), (70, 50), (17, 31))
+        for first in shapes:
+            for second in shapes:
+                for layout in ("YX", ("SYX", 2)):
+                    for pb in (False, True):
+                        yield ("s6", first, second, layout, pb)
+
+    return g
+
+
+def run_s6(case):
+    """History: two saves to the SAME destination path, one after the other; the file must decode to the second
+    image (the destination of an earlier write is replaced, never appended to or mixed in)."""
+    _, first, second, layout, pb = case
+    lk = layout if layout == "YX" else layout[0]
+    rel = "same-shape" if first == second else ("smaller" if second[0] * second[1] < first[0] * first[1] else "larger")
+    r = R(outcome=f"s6:{lk}:{rel}:pb{int(pb)}")
+    td = tempfile.mkdtemp(prefix="vf-c05r-")
+    try:
+        path = os.path.join(td, "out.tif")
+        kw = {}
+        if pb:
+            kw["parts_base"] = os.path.join(td, "parts")
+            os.mkdir(kw["parts_base"])
+        for n, yx in enumerate((first, second)):
+            xx, data, gbox = build_xx(yx, layout, "int16", -9999 - n, (16, 16))
+            if n == 1:
+                data = data + 1000  # different pixels as well as (possibly) a different shape
+                xx = xx + 1000
+                xx.attrs["nodata"] = -9999 - n
+            with dask.config.set(scheduler="sync"):
+                save_cog_with_dask(xx, path, blocksize=[16], compression="deflate", **kw).compute()
+            inspect(path, data, layout, gbox, -9999 - n, [16], r, f"{case} after save #{n + 1}", f"rewrite:{lk}:{rel}:save{n + 1}")
+    finally:
+        shutil.rmtree(td, ignore_errors=True)
+    return r
+
+
 # -- E3b --------------------------------------------------------------------------------------------------------
 class _Ctx:
     pass
@@ -479,6 +519,7 @@ def slices(tier):
         e1.Slice("s2-dtype-compression", gen_s2(tier), run_s2, "dtypes x compression x predictor x nodata"),
         e1.Slice("s3-blocksize-chunking", gen_s3(tier), run_s3, "blocksize lists x source chunkings"),
         e1.Slice("s4-spill", gen_s4(tier), run_s4, "spill size x writes per chunk x parts dir"),
+        e1.Slice("s6-rewrite-destination", gen_s6(tier), run_s6, "two saves to the same destination path in sequence"),
         e1.Slice("s5-task-orders", gen_s5(tier), run_s5, "E3b: all task orders within the deviation bound (8 partitions "
                  "of the schedule tree per graph)", shards=32),
     ]
